@@ -399,6 +399,36 @@ theorem cleanupAll_inv1 {O : Oracle} {cfg : Config} {L : List GSet} (pgs : Optio
           · exact e7 b hb
           · exact i2 b hb
 
+theorem cleanupAll_no_vaa (pgs : Option GSet) (db : List (VaaId × Bytes)) (now : Int) :
+    ∀ (l : List (Bytes × VState)) (room : Nat) (l' : List (Bytes × VState)) (outs : List Out),
+      cleanupAll pgs db now l room = .ok (l', outs) → ∀ b, Out.vaa b ∉ outs := by
+  intro l
+  induction l with
+  | nil =>
+    intro room l' outs h
+    simp [cleanupAll] at h
+    obtain ⟨rfl, rfl⟩ := h
+    intro b hb; simp at hb
+  | cons hd tl ih =>
+    intro room l' outs h
+    obtain ⟨d, st⟩ := hd
+    unfold cleanupAll at h
+    split at h
+    · cases h
+    · exact ih _ _ _ h
+    · rename_i st' o hk
+      split at h
+      · cases h
+      · rename_i agg' outs' hrest
+        simp only [Except.ok.injEq, Prod.mk.injEq] at h
+        obtain ⟨rfl, rfl⟩ := h
+        have e7 := (cleanupEntry_keep _ _ _ _ _ _ _ hk).2.2.2.2.2.2
+        intro b hb
+        simp at hb
+        rcases hb with hb | hb
+        · exact e7 b hb
+        · exact ih _ _ _ hrest b hb
+
 theorem handleCleanup_inv1 {O : Oracle} {cfg : Config} {L : List GSet} {s : PState} (h : Inv1 O cfg L s)
     (now : Int) (room : Nat) (s' : PState) (outs : List Out) (hr : handleCleanup s now room = .ok s' outs) :
     Inv1 O cfg L s' ∧ (∀ b, Out.vaa b ∉ outs) ∧ s'.db = s.db := by
